@@ -14,6 +14,7 @@ from engine import extract, facts, inline  # noqa: E402
 def main():
     names = set()
     consts = set()
+    sigs = {}
     if os.path.exists(inline.KNOWN):
         os.remove(inline.KNOWN)
     for cfg in extract.CONFIGS:
@@ -22,13 +23,14 @@ def main():
         for b in prog.bodies.values():
             if b.d.kind != "Closure" and b.d.local:
                 names.add(b.name)
+                sigs[b.name] = inline.signature(b)
         for k in prog.consts:
             consts.add(prog.defs[k].name)
         for d_ in prog.defs.values():
             if d_.kind.startswith(("Const", "AssocConst", "Static")):
                 consts.add(d_.name)
     json.dump({"comment": "functions of the reference tree (all build configurations); see engine/inline.py",
-               "functions": sorted(names), "consts": sorted(consts)}, open(inline.KNOWN, "w"), indent=0)
+               "functions": sorted(names), "consts": sorted(consts), "signatures": sigs}, open(inline.KNOWN, "w"), indent=0)
     print(len(names), "functions,", len(consts), "constants")
 
 
